@@ -776,11 +776,26 @@ char Upcase(char inp) {
     return UpCaseTable[((unsigned int)inp) & 0xff];
 }
 
+/* NLS_UpString() and NLS_LowString() convert in place, so the converted character has
+   to be as long as the sequence it was read from.  A byte >= 0x80 that is not part of
+   a valid sequence (e.g. a lead byte at the end of the string) is read as one
+   character, but UnicodeToUTF8() would write it as two bytes - over the terminating
+   NUL.  Such bytes remain as they are. */
+
+static void ReplaceUTF8(char** ppDest, char const* pSrcEnd, LongWord Unicode) {
+    char      Buf[8], *pBufEnd = Buf;
+    ptrdiff_t SrcLen = pSrcEnd - *ppDest;
+
+    UnicodeToUTF8(&pBufEnd, Unicode);
+    if (pBufEnd - Buf == SrcLen) {
+        memcpy(*ppDest, Buf, SrcLen);
+    }
+    *ppDest += SrcLen;
+}
+
 void NLS_UpString(char* pStr) {
     unsigned    Unicode;
     char const* pSrc = pStr;
-
-    /* TODO: assure pSrc & pStr remain in-sync for UTF-8 */
 
     while (*pStr) {
         if (eCodepageUTF8 == NLSInfo.Codepage) {
@@ -790,7 +805,7 @@ void NLS_UpString(char* pStr) {
         }
         Unicode = (Unicode < 256) ? (unsigned int)(UpCaseTable[Unicode] & 0xff) : Unicode;
         if (eCodepageUTF8 == NLSInfo.Codepage) {
-            UnicodeToUTF8(&pStr, Unicode);
+            ReplaceUTF8(&pStr, pSrc, Unicode);
         } else {
             *pStr++ = Unicode;
         }
@@ -801,8 +816,6 @@ void NLS_LowString(char* pStr) {
     unsigned    Unicode;
     char const* pSrc = pStr;
 
-    /* TODO: assure pSrc & pStr remain in-sync for UTF-8 */
-
     while (*pStr) {
         if (eCodepageUTF8 == NLSInfo.Codepage) {
             Unicode = UTF8ToUnicode(&pSrc);
@@ -812,7 +825,7 @@ void NLS_LowString(char* pStr) {
         Unicode = (Unicode < 256) ? (unsigned int)(LowCaseTable[Unicode] & 0xff)
                                   : Unicode;
         if (eCodepageUTF8 == NLSInfo.Codepage) {
-            UnicodeToUTF8(&pStr, Unicode);
+            ReplaceUTF8(&pStr, pSrc, Unicode);
         } else {
             *pStr++ = Unicode;
         }
